@@ -3,7 +3,10 @@ package checks
 import (
 	"bytes"
 	"fmt"
+	"reflect"
 	"strings"
+	"sync"
+	"verif/internal/registry"
 
 	"verif/internal/adapt"
 	"verif/internal/choose"
@@ -167,8 +170,58 @@ func c07Base(r *core.Run, w []byte, k refmodel.KeysAndCert, desc string, withCto
 			}
 		}
 	}
+	// history: the identity is handed to every exported package-level function that takes it (blinding,
+	// wrapping constructors, accessor functions - found by the registry scan, argument menus for the other
+	// parameters); afterwards it must still be the identity it was parsed as
+	for _, id := range ids {
+		if id.buf == nil {
+			continue // (the parse buffers were overwritten above: only values that own their bytes reach here)
+		}
+		var v any
+		if id.dest != nil {
+			v = id.dest
+		} else {
+			v = id.ri
+		}
+		n := 0
+		core.Guard(func() { n = adapt.CallFuncsWith(v, c07FuncsFor(v), func(adapt.CallOutcome) {}) })
+		r.Evaluations.Add(int64(n))
+		if b, err := id.bytes(); err != nil || !bytes.Equal(b, w) {
+			r.Violate("C07|serialisation|after-being-passed-to-exported-functions|"+pathClass(id.path), fmt.Sprintf("%s: the identity's bytes changed after it was passed as an argument to the exported functions that take it (err %v) (%s)", id.path, err, desc), cs)
+			continue
+		}
+		if id.dest != nil {
+			if h, err := id.dest.Hash(); err != nil || h != sum {
+				r.Violate("C07|hash|after-being-passed-to-exported-functions|"+pathClass(id.path), fmt.Sprintf("%s: Hash() changed after the identity was passed to the exported functions that take it (%s)", id.path, desc), cs)
+			}
+		}
+	}
 	r.Distinct(w)
 	return ids
+}
+
+var (
+	c07FuncOnce  sync.Once
+	c07FuncIndex map[reflect.Type][]adapt.FuncInfo
+)
+
+// c07FuncsFor: every exported package-level function with a parameter of v's type (constructors included).
+func c07FuncsFor(v any) []adapt.FuncInfo {
+	c07FuncOnce.Do(func() {
+		var all []adapt.FuncInfo
+		for _, f := range registry.Funcs {
+			fv := reflect.ValueOf(f.Fn)
+			if fv.Kind() == reflect.Func {
+				all = append(all, adapt.FuncInfo{Name: f.Name, V: fv, T: fv.Type()})
+			}
+		}
+		c07FuncIndex, _ = adapt.FuncsTaking(all)
+	})
+	t := reflect.TypeOf(v)
+	for t != nil && t.Kind() == reflect.Ptr {
+		t = t.Elem()
+	}
+	return c07FuncIndex[t]
 }
 
 func pathClass(p string) string {
